@@ -9,6 +9,7 @@ CONSTANTS
   ROs = {FALSE, TRUE}
   ExtNames = {"a"}
   MaxFiles = {2, 1000000}
+  FaultSet <- FaultsQuick
   WhatIf = "hash_before_limit"
 SPECIFICATION Spec
 INVARIANT NoViolation
